@@ -2581,3 +2581,19 @@ def rule_pointer_follow(ctx, m, rid="PTR-follow", floor=30):
             r.ob(f.sig, f.text(c)[:50], ok, "%s follows pointers itself" % nm if ok else
                  "%s looks at the pointee's own kind only: for a pointer to a pointer the answer is about the inner pointer, not about the value (a member pointing to a pointer to an Undefined value is stringified as `\"b\":,`)" % nm, f.loc(c))
     return r
+
+
+def shared(ctx, module, rids):
+    """Rules of another property's module that state a necessary condition of this property as well (a seeded change to this
+    property was reported by them): the other module is run on the same models and the named rules are taken over unchanged,
+    with their floors.  Not nested: a module that is itself being borrowed from does not borrow."""
+    if getattr(ctx, "_sharing", False):
+        return []
+    import importlib
+    ctx._sharing = True
+    try:
+        mod = importlib.import_module("rules." + module)
+        out = [r_ for r_ in (mod.run(ctx) or []) if r_.rid in rids]
+    finally:
+        ctx._sharing = False
+    return out
